@@ -87,9 +87,9 @@ func cmdCheck(args []string) int {
 	start := time.Now()
 	db := loadDB()
 	kf := loadKnown()
-	timeout := 20
+	timeout := 45
 	if tier == "thorough" {
-		timeout = 120
+		timeout = 180
 	}
 	engineErr := func(format string, a ...interface{}) int {
 		fmt.Printf("ENGINE-ERROR property=%s %s\n", prop, fmt.Sprintf(format, a...))
@@ -261,6 +261,11 @@ func cmdCheck(args []string) int {
 	for _, g := range groups {
 		for _, o := range g.obls {
 			solverTime += o.Result.Time
+			if slow := os.Getenv("VERIF_SLOW"); slow != "" && !o.Trivial {
+				if thr, _ := strconv.ParseFloat(slow, 64); o.Result.Time >= thr {
+					fmt.Fprintf(os.Stderr, "SLOW %.1fs %s\n", o.Result.Time, o.Name)
+				}
+			}
 			if o.Result.Status == "error" {
 				fmt.Printf("ENGINE-ERROR property=%s solver error on %s: %s %s\n", prop, o.Name, o.Result.Detail, trunc(o.Result.Output, 300))
 				exit = 2
